@@ -372,7 +372,7 @@ pub fn streams() -> Vec<Box<dyn AnyStream>> {
 
 pub const PROP: Prop = Prop {
     id: "C13",
-    rule: "cases = (tuple of 0..5 f64 bit patterns from {-inf,-1,-5e-324,-0.0,0,5e-324,MIN_POSITIVE,0.5,1-2^-53,1,1+2^-52,2,MAX,+inf, two NaN payloads} ∪ arbitrary bit patterns ∪ uniform [0,1], root degree n ∈ 1..64 ∪ {100,10^6}); the special pool × arity ≤ 3 is enumerated completely; oracle: reference predicate 0 ≤ x ≤ 1 for try_from_floats / new_* (panic ⇔ Err) / stored variant and numbers / accessors / is_valid-try_validate-validate / root / zero-one; non-trivial = the tuple contains a special value; distinct = fingerprint of the bit patterns",
+    rule: "cases = (tuple of 0..5 f64 bit patterns from {-inf,-1,-5e-324,-0.0,0,5e-324,MIN_POSITIVE,0.5,1-2^-53,1,1+2^-52,2,MAX,+inf, two NaN payloads} ∪ arbitrary bit patterns ∪ uniform [0,1], root degree n ∈ 1..64 ∪ {100,10^6}); the special pool × arity ≤ 3 is enumerated completely; oracle: reference predicate 0 ≤ x ≤ 1 for try_from_floats (over exact-size, filtered, generated, chained, string-parsing and NON-FUSED iterators: what is supplied ends at the first None) / new_* (panic ⇔ Err) / stored variant and numbers / accessors / is_valid-try_validate-validate / root / zero-one; non-trivial = the tuple contains a special value; distinct = fingerprint of the bit patterns",
     assumptions: &["-0.0 counts as inside [0,1] (0.0 <= -0.0 holds in IEEE-754)", "root is checked for n ≥ 1"],
     streams,
 };
